@@ -181,6 +181,8 @@ pub struct Driver<const N: usize> {
     /// byte snapshots of every blob file ever seen (C07), by blob id
     pub snaps: HashMap<u64, Vec<u8>>,
     pub snapshots_on: bool,
+    /// mismatches found while executing an action (reported with the step's comparison)
+    pub pending: Vec<Mismatch>,
 }
 
 pub fn blob_path(dir: &Path, id: u64) -> PathBuf {
@@ -243,6 +245,7 @@ impl<const N: usize> Driver<N> {
             last_active: -1,
             snaps: HashMap::new(),
             snapshots_on: false,
+            pending: Vec::new(),
         }
     }
 
@@ -308,6 +311,19 @@ impl<const N: usize> Driver<N> {
         r.map_err(|e| format!("init: {e:#}"))?;
         self.storage = Some(st);
         self.settle().await
+    }
+
+    /// answers of check_filters / check_filter for every model key and absent probe
+    pub async fn filter_answers(&self) -> Vec<(u64, i8, bool)> {
+        let st = self.storage.as_ref().expect("open");
+        let mut v = Vec::new();
+        for probe in 0..=(2 * self.nkeys + 1) {
+            let key = key_bytes::<N>(probe);
+            let a = match st.check_filters(&key).await { Some(true) => 1, Some(false) => 0, None => -1 };
+            let b = BloomProvider::check_filter(st, &key).await == FilterResult::NeedAdditionalCheck;
+            v.push((probe, a, b));
+        }
+        v
     }
 
     /// driver-side trace event
@@ -437,9 +453,17 @@ impl<const N: usize> Driver<N> {
                 }
             },
             "offload" => {
+                // C10: the answers of the filters for every probe key must not change when the
+                // buffers are off-loaded (file answers = memory answers)
                 let level = act.f as usize;
+                let before = self.filter_answers().await;
                 let st = self.storage.as_mut().expect("open");
                 let _ = st.offload_buffer(usize::MAX, level).await;
+                let after = self.filter_answers().await;
+                if before != after {
+                    self.pending.push(Mismatch { step: 0, action: "offload".into(), kind: "filter_offload_diff".into(),
+                        expected: json!(before), got: json!(after) });
+                }
                 res("ok", 0)
             }
             "age" => {
@@ -456,7 +480,17 @@ impl<const N: usize> Driver<N> {
                 let graceful = act.f & 1 == 1;
                 let lazy = act.f & 2 == 2;
                 self.shutdown(graceful).await?;
-                self.damage_indexes(&act.s);
+                if act.f & 4 == 4 {
+                    // the blob file of the victim becomes unreadable: cut inside its last record
+                    // (or inside its header when it holds no record)
+                    let p = blob_path(&self.dir, act.k);
+                    let len = std::fs::metadata(&p).map(|m| m.len()).unwrap_or(0);
+                    let cut = if len > 25 { len - 5 } else { len.min(10) };
+                    truncate(&p, cut);
+                    self.snaps.remove(&act.k);   // the driver itself changed these bytes
+                    self.log.push(format!("damage: blob {} file truncated {len} -> {cut}", act.k));
+                }
+                self.damage_indexes(if act.f & 4 == 4 { "keep" } else { &act.s });
                 self.open(lazy).await?;
                 res("ok", 0)
             }
@@ -600,6 +634,10 @@ impl<const N: usize> Driver<N> {
     /// Observe the real storage and compare with the expected observables.
     pub async fn compare(&mut self, step: usize, action: &str, exp: &ObsJ, out: &mut Vec<Mismatch>) {
         self.ev("call", "query", -1, true);
+        for mut m in self.pending.drain(..) {
+            m.step = step;
+            out.push(m);
+        }
         self.compare_inner(step, action, exp, out).await;
         self.ev("ret", "query", -1, true);
     }
@@ -798,6 +836,48 @@ impl<const N: usize> Driver<N> {
         if alive != exp.alive {
             mm("worker_alive".into(), json!(exp.alive), json!(alive));
         }
+    }
+
+    /// Project the answers of the real storage to the abstract alphabet (for traces that TLC
+    /// validates against TraceStore).  Value ids are recovered from the payload bytes.
+    pub async fn observe(&self) -> Value {
+        let st = self.storage.as_ref().expect("open");
+        let mut keys = Vec::new();
+        for i in 1..=self.nkeys {
+            let key = model_key::<N>(i);
+            let rd = |r: Result<ReadResult<Bytes>, anyhow::Error>| match r {
+                Ok(ReadResult::Found(b)) => json!({"t": "F", "n": self.identify(&b)}),
+                Ok(ReadResult::Deleted(ts)) => json!({"t": "D", "n": tsu(ts)}),
+                Ok(ReadResult::NotFound) => json!({"t": "N", "n": 0}),
+                Err(e) => json!({"t": format!("err: {e:#}"), "n": 0}),
+            };
+            let r = rd(st.read(&key).await);
+            let c = match st.contains(&key).await {
+                Ok(ReadResult::Found(ts)) => json!({"t": "F", "n": tsu(ts)}),
+                Ok(ReadResult::Deleted(ts)) => json!({"t": "D", "n": tsu(ts)}),
+                Ok(ReadResult::NotFound) => json!({"t": "N", "n": 0}),
+                Err(e) => json!({"t": format!("err: {e:#}"), "n": 0}),
+            };
+            let mut all = Vec::new();
+            match st.read_all_with_deletion_marker(&key).await {
+                Ok(entries) => {
+                    for e in entries {
+                        let ts = tsu(e.timestamp());
+                        let del = e.is_deleted() as u64;
+                        let v = if del == 1 { 0 } else {
+                            match e.load().await { Ok(rec) => self.identify(&rec.into_data()), Err(_) => -998 }
+                        };
+                        all.push(json!([ts, del, v]));
+                    }
+                }
+                Err(_) => all.push(json!([0, 0, -997])),
+            }
+            let w0 = rd(st.read_with(&key, &meta_of(0)).await);
+            let w1 = rd(st.read_with(&key, &meta_of(1)).await);
+            let w2 = rd(st.read_with(&key, &meta_of(2)).await);
+            keys.push(json!({"r": r, "c": c, "all": all, "w0": w0, "w1": w1, "w2": w2}));
+        }
+        json!({"keys": keys, "records": st.records_count().await as i64})
     }
 
     /// C07 (hook-free part): the earlier content of every blob file is a prefix of its current
